@@ -176,7 +176,8 @@ def one_run(plan, log, faults=(), stop_frac=None, scene=None, out=None, poison=N
         def wrapped(orig):
             def f(*a, **k):
                 r = orig(*a, **k)
-                O.solves.append((log.ev("fsolve_returned", bool(r.success), bool(np.all(np.isfinite(r.x)))), bool(r.success), bool(np.all(np.isfinite(r.x)))))
+                fin = bool(np.all(np.isfinite(r.x)) and np.all(np.isfinite(np.asarray(r.fun, dtype=float))))
+                O.solves.append((log.ev("fsolve_returned", bool(r.success), fin), bool(r.success), fin))
                 return r
 
             return f
@@ -523,14 +524,14 @@ def poison_run(plan, pilot, out, log):
     sol = O.sol
     rows = [i for i in range(len(sol.t)) if not (np.all(np.isfinite(sol.q[i])) and (sol.u is None or np.all(np.isfinite(sol.u[i]))))]
     bad = [s for s in O.solves if s[1] and not s[2]]
-    if rows and bad:
+    if bad:
         after = [w for w in O.sim.warnings if w[0] > bad[0][0]]
         if not after:
             out["violations"].append(
                 violation(
                     "nonfinite_declared_converged",
                     name,
-                    f"a force law evaluates to NaN from t={t_p:.6g} on: {len(bad)} nonlinear solves reported success for a non-finite solution, no error was raised, no warning followed, and the returned solution has {len(rows)} non-finite rows (first: row {rows[0]}, t={float(sol.t[rows[0]]):.6g}) among {len(sol.t)}",
+                    f"a force law evaluates to NaN from t={t_p:.6g} on: {len(bad)} nonlinear solves reported success although their residual or solution is non-finite, no error was raised, no warning followed, and {len(sol.t)} instants were returned ({len(rows)} of them non-finite)",
                 )
             )
             return "violation"
